@@ -21,7 +21,7 @@ import (
 
 var c01Methods = []string{"<unset>", "OnDelete", "Recreate", "InPlace", "RollingRecreate", "RollingInPlace"}
 var c01Hooks = []string{"static0", "static1", "static2", "fromSpec", "ordered3", "echoStatus"}
-var c01Slot = []string{"absent", "owned", "owned-drifted", "owned+foreign", "orphan", "orphan-drifted"}
+var c01Slot = []string{"absent", "owned", "owned-drifted", "owned+foreign", "orphan", "orphan-drifted", "orphan-plainref"}
 
 type c01Case struct {
 	Cluster  bool
@@ -201,6 +201,11 @@ func c01Run(c c01Case) []mc.Finding {
 			})
 		case "owned+foreign":
 			w.Sim.Edit(kit.Leaf, cns, name, func(o map[string]interface{}) { kit.Field(o, "x", "spec", "f") })
+		case "orphan-plainref":
+			// nobody controls it, but it still lists the parent as a plain owner
+			w.Sim.Edit(kit.Leaf, cns, name, func(o map[string]interface{}) {
+				kit.Owners(o, kit.M{"apiVersion": pk.APIVersion(), "kind": pk.Kind, "name": "p", "uid": puid})
+			})
 		case "orphan", "orphan-drifted":
 			w.Sim.Edit(kit.Leaf, cns, name, func(o map[string]interface{}) {
 				delete(o["metadata"].(map[string]interface{}), "ownerReferences")
